@@ -3,8 +3,11 @@ package props
 import (
 	"bytes"
 	"fmt"
+	"os"
+	"path/filepath"
 	"runtime"
 	"sort"
+	"strings"
 	"sync"
 	"sync/atomic"
 	"time"
@@ -20,7 +23,11 @@ var c20Kinds = []string{
 	"read-srt", "read-webvtt", "read-ttml", "read-ssa", "read-stl", "read-teletext",
 	"write-srt", "write-ssa", "write-stl", "write-ttml", "write-webvtt",
 	"transform",
+	"file", // Subtitles.Write to a file of its own (several goroutines write into the same directory) and OpenFile
 }
+
+// c20Dir is the directory of the current round's "file" operations
+var c20Dir string
 
 // c20Op executes one operation that owns all its inputs (rebuilt from the seed) and returns a digest of its result
 func c20Op(kind string, seed uint64) string {
@@ -44,6 +51,23 @@ func c20Op(kind string, seed uint64) string {
 				return
 			}
 			out = sha([]byte(deepDump(s)))
+		case kind == "file":
+			// every operation has a file name of its own; directory and extension are shared with the others
+			s := richSubtitles(r)
+			ext := fw.Pick(r, []string{"srt", "vtt", "ttml", "ssa", "stl"})
+			path := filepath.Join(c20Dir, fmt.Sprintf("list-%d.%s", seed, ext))
+			if err := s.Write(path); err != nil {
+				out = "write err:" + strings.ReplaceAll(err.Error(), c20Dir, "")
+				return
+			}
+			b, err := os.ReadFile(path)
+			back, rerr := astisub.OpenFile(path)
+			os.Remove(path)
+			n := -1
+			if back != nil {
+				n = len(back.Items)
+			}
+			out = fmt.Sprintf("%s/%v/%v/%d", sha(b), err != nil, rerr != nil, n)
 		case len(kind) > 6 && kind[:6] == "write-":
 			s := richSubtitles(r)
 			if ind := r.Intn(4); kind == "write-ttml" && ind > 0 {
@@ -124,11 +148,15 @@ func c20Run(c *fw.Ctx) fw.Outcome {
 		seed uint64
 		seq  string
 	}
+	c20Dir = c.TmpDir()
 	jobs := make([]job, g)
 	for i := range jobs {
 		jobs[i] = job{kind: fw.Pick(r, c20Kinds), seed: r.U64()}
 		if r.P(1, 3) && i > 0 {
 			jobs[i].kind = jobs[i-1].kind // several operations of the same kind at once (same shared tables)
+		}
+		if c.Idx%6 == 5 && i%2 == 0 {
+			jobs[i].kind = "file" // every sixth round: half of the operations write files into the same directory
 		}
 	}
 	// the sequential run, alone, beforehand
